@@ -118,6 +118,7 @@ void status_progress();                           // bump progress counter for t
 struct Violation {
     std::string property, sig, detail, plan;
 };
+void plan_dump_maybe(const std::string &plan);    // every K-th executed plan goes to a file (valgrind sample)
 void report_violation(const std::string &property, const std::string &sig, const std::string &detail,
                       const std::string &plan_text);
 extern std::map<std::string, uint64_t> g_violation_counts;   // by signature
